@@ -142,6 +142,8 @@ class Registry:
                             spec["decreases"] = kwd.value
                         elif kwd.arg == "ghost_modifies":
                             spec["ghost_modifies"] = ast.literal_eval(kwd.value)
+                        elif kwd.arg == "types":
+                            spec["types"] = ast.literal_eval(kwd.value)
                     if not isinstance(spec["invariant"], ast.Lambda):
                         raise EngineError("%s: loop(%d) needs inv=lambda ..." % (path, k))
                     c.loops[k] = spec
